@@ -15,23 +15,32 @@ from .mir import Body, op_place, op_const, op_local, callee_of, callee_name
 MAXD = 14
 
 
+def too_deep(t, limit):
+    """is the nesting depth of term t greater than limit?  (early exit, no full traversal of shallow terms)"""
+    stack = [(t, 0)]
+    while stack:
+        x, d = stack.pop()
+        if d > limit:
+            return True
+        if not isinstance(x, tuple):
+            continue
+        for y in x[1:]:
+            if isinstance(y, tuple):
+                if y and isinstance(y[0], str):
+                    stack.append((y, d + 1))
+                else:
+                    for z in y:
+                        if isinstance(z, tuple):
+                            stack.append((z, d + 1))
+    return False
+
+
 def tdepth(t, d=0):
-    if not isinstance(t, tuple) or d > MAXD:
-        return d
-    m = d
-    for x in t[1:]:
-        if isinstance(x, tuple):
-            if x and isinstance(x[0], str):
-                m = max(m, tdepth(x, d + 1))
-            else:
-                for y in x:
-                    if isinstance(y, tuple):
-                        m = max(m, tdepth(y, d + 1))
-    return m
+    return MAXD + 1 if too_deep(t, MAXD) else 0
 
 
 def clip(t):
-    return t if tdepth(t) <= MAXD else ("op", "deep", ())
+    return ("op", "deep", ()) if too_deep(t, MAXD) else t
 
 
 class Path:
@@ -107,7 +116,7 @@ class Walker:
                     t = ("i", t, "*")
             elif "sub" in e:
                 t = ("i", t, "*")
-        return clip(t)
+        return t
 
     def operand(self, path, o):
         pl = op_place(o)
